@@ -238,6 +238,10 @@ func symptom(res *scanRes) (string, string) {
 }
 
 func addSim(o *kit.Outcome, res *scanRes, workload uint64, nontrivial bool) {
+	if len(o.Violations) == 0 && len(res.sim.Trace) > 0 {
+		// the oracle runs right after this call: the trace kept is that of the first violating execution
+		o.Trace = res.sim.Trace
+	}
 	o.Evals++
 	o.SimNanos += res.sim.SimNanos
 	o.Yields += res.sim.Yields
